@@ -46,6 +46,14 @@ def budget(tier: str) -> dict:
 # generators
 
 
+CONT_DOCS = [
+    "[foo\nbar]\n\n[foo bar]: /u\n", "[foo bar]\n\n[foo\nbar]: /u\n", "[t][foo\nbar baz]\n\n[foo bar\nbaz]: /u 'x\ny'\n", "![foo\nbar][]\n\n[foo bar]: /u\n",
+    "> [a\n> b][]\n>\n> [a b]: /u\n", "- [t][x\n  y]\n\n[x y]: /u\n", "[a](/u 'x\ny') *c\nd* `e\nf` <a\nhref=x> text\nmore\n", "[a](\n/u\n'x') and <http://a.b/c\nd>\n",
+    "a\nb\n===\n", "[r]:\n/u\n'title\nmore'\n\n[r]\n", "[Foo\nBar\nBaz]: /u\n\n[foo bar\nbaz] [FOO\nBAR BAZ][]\n", "1. [p\n   q]\n\n[p q]: /u\n",
+    "[a\nb]: /u\n[a\nb]: /v\n\n[a b]\n", "![x\ny](/u \"t\nu\")\n", "**s\nt** ~~u\nv~~ [w\nx](/u)\n",
+]
+
+
 @st.composite
 def _case(draw):
     d = gen.D(draw)
@@ -65,6 +73,10 @@ def _case(draw):
         return {"kind": kind, "src": src, "cfg": cfg}
     if kind == "leading":
         src = gen.any_doc_d(d).replace("\r", "")
+        if d.chance(0.2):
+            # inline constructs that continue on the next line (labels, link text, titles, destinations, code spans, raw
+            # HTML, definitions): the continuation line's indentation reaches the inline parser as written
+            src = d.pick(CONT_DOCS)
         lines = src.split("\n")
         out = []
         for ln in lines:
